@@ -23,6 +23,20 @@ def main(path):
         viol = out.get("violations") or [v for s in out.get("scripts", []) for v in s.get("violations", [])]
         print("reproduced" if viol else "not reproduced", json.dumps(viol)[:2000])
         return 1 if viol else 0
+    if kind == "lifecycle":
+        cases = common.os.path.join(common.WORK, "replay_lifecycle.json")
+        with open(cases, "w") as f:
+            json.dump([r["case"]], f)
+        p = subprocess.run([common.VH, "lifecycle", json.dumps({"cases": cases})], stdout=subprocess.PIPE, text=True)
+        out = json.loads(p.stdout.strip().splitlines()[-1])
+        viol = out.get("violations") or out.get("model_mismatch")
+        print("reproduced" if viol else "not reproduced", json.dumps(viol)[:2000])
+        return 1 if viol else 0
+    if kind == "matrix" and isinstance(r.get("scenario"), dict):
+        p = subprocess.run([common.VH, "matrix", json.dumps({"scenarios": [r["scenario"]], "repeat": 3})], stdout=subprocess.PIPE, text=True)
+        out = json.loads(p.stdout.strip().splitlines()[-1])
+        print("reproduced" if out.get("violations") else "not reproduced", json.dumps(out.get("violations"))[:2000])
+        return 1 if out.get("violations") else 0
     if kind in ("trace_rejected", "trace_invariant"):
         ctx = common.Ctx("replay", "quick", "replay")     # own scratch directory: a check's work directory is left alone
         ok, where, tres = ctx.validate_trace(r["module"], r["trace"], "replay_trace", r["constants"], invariants=r.get("invariants", ()))
